@@ -2731,3 +2731,19 @@ CATALOGUE['C19'] += [
                     rendered[i] = rendered[i].decode(encoding)""",
       'C19.R3'),
 ]
+
+CATALOGUE['C11'] += [
+    V('window computation gets size and end swapped', 'DT_In.py',
+      'start, end, sz = opt(start, end, size, orphan, sequence)',
+      'start, end, sz = opt(start, size, end, orphan, sequence)',
+      'C11.R3'),
+    V('silent: the size parameter lives in another local', 'DT_In.py',
+      """        size = int_param(params, md, 'size', 0)
+        overlap = int_param(params, md, 'overlap', 0)
+        orphan = int_param(params, md, 'orphan', '0')
+        start, end, sz = opt(start, end, size, orphan, sequence)""",
+      """        wanted = int_param(params, md, 'size', 0)
+        overlap = int_param(params, md, 'overlap', 0)
+        orphan = int_param(params, md, 'orphan', '0')
+        start, end, sz = opt(start, end, wanted, orphan, sequence)"""),
+]
